@@ -579,8 +579,13 @@ where
             let mut buffer = vec![0; want_bytes];
             let n = self.file.read(&mut buffer)?;
             assert!(n <= left);
-            // Can't get EOF here.
-            assert_ne!(n, 0);
+            if n == 0 {
+                // Truncated archive, or a data file that shrank after open.
+                return Err(Error::msg(format!(
+                    "sigmf data ended {} bytes before its announced size",
+                    self.left
+                )));
+            }
             self.left -= n as u64;
             self.buf.extend(&buffer[..n]);
         }
